@@ -236,8 +236,9 @@ func (svc *service) stop() {
 	// Wait for all the goroutines to stop.
 	svc.wgStopped.Wait()
 
-	log.Debugf("(%s) Received %d bytes in %d messages", svc.cid(), svc.inStat.bytes, svc.inStat.msgs)
-	log.Debugf("(%s) Sent %d bytes in %d messages", svc.cid(), svc.outStat.bytes, svc.outStat.msgs)
+	// the counters are incremented atomically by whoever writes to this connection
+	log.Debugf("(%s) Received %d bytes in %d messages", svc.cid(), atomic.LoadInt64(&svc.inStat.bytes), atomic.LoadInt64(&svc.inStat.msgs))
+	log.Debugf("(%s) Sent %d bytes in %d messages", svc.cid(), atomic.LoadInt64(&svc.outStat.bytes), atomic.LoadInt64(&svc.outStat.msgs))
 
 	// Unsubscribe from all the topics for this client, only for the server side though
 	if !svc.client && svc.sess != nil {
@@ -269,9 +270,9 @@ func (svc *service) stop() {
 		svc.sessMgr.Del(svc.sess.ID())
 	}
 
-	svc.conn = nil
-	svc.in = nil
-	svc.out = nil
+	// conn, in and out are not cleared: other goroutines (publishers fanning out
+	// to this connection) still read them without synchronisation. The buffers
+	// are closed, so writeMessage fails with EOF from here on.
 }
 
 func (svc *service) publish(msg *message.PublishMessage, onComplete OnCompleteFunc) error {
